@@ -40,13 +40,13 @@ impl Engine for Mt {
         let t = tier == "thorough";
         let p = |s: &str, q: u64, th: u64| (s.to_string(), if t { th } else { q });
         match prop {
-            "C08" => vec![p("mt.equiv", 12000, 1_500_000)],
-            "C09" => vec![p("mt.fault", 16000, 1_500_000)],
-            "C10" => vec![p("mt.drop", 24000, 2_000_000)],
-            "C04" => vec![p("mt.corrupt", 8000, 400_000)],
-            "C06" => vec![p("mt.hostile", 8000, 400_000)],
-            "C18" => vec![p("mt.sizes", 6000, 400_000)],
-            "C13" => vec![p("mt.determ", 8000, 500_000)],
+            "C08" => vec![p("mt.equiv", 12000, 300_000)],
+            "C09" => vec![p("mt.fault", 16000, 300_000)],
+            "C10" => vec![p("mt.drop", 24000, 400_000)],
+            "C04" => vec![p("mt.corrupt", 8000, 100_000)],
+            "C06" => vec![p("mt.hostile", 8000, 100_000)],
+            "C18" => vec![p("mt.sizes", 6000, 100_000)],
+            "C13" => vec![p("mt.determ", 8000, 120_000)],
             _ => vec![],
         }
     }
